@@ -113,6 +113,7 @@ func (pr *prompter) prompt(ctx context.Context) error {
 			pr.r.narrate(I, "", "act %d, scene %d%s:", actNum, sceneNum, extraMsg)
 
 			// Now run the scene.
+			verifPoint("prompt.scene")
 			err := pr.runScene(sceneCtx, scene.concurrentLines)
 
 			// In any case, make a statement about the duration.
